@@ -735,7 +735,7 @@ def go_obs(line):
 
 def run(res, tier, seed, proof):
     rnd = random.Random(seed)
-    n_worlds = 260 if tier == "quick" else 4000
+    n_worlds = 260 if tier == "quick" else 2800
     worlds = []
     for i in range(n_worlds):
         w = gen_world(random.Random(rnd.getrandbits(64)), depth=(6 if i % 9 == 0 else None))
